@@ -407,7 +407,10 @@ impl Hypercore {
         // a held block: no event; the data file is read at the block's byte range
         old(self).bitfield.bit(index as int) ==> final(self).events.trace@ == old(self).events.trace@,
         old(self).bitfield.bit(index as int) && r is Ok ==> r->Ok_0 is Some
-            && final(self).storage.reads@.len() > 0 && final(self).storage.reads@.last() == (Store::Data, blk_off(index as int)),
+            // an empty block needs no read (its offset may lie beyond a truncated data file); any other block is read at its offset
+            && (blk_off(index + 1) == blk_off(index as int) ==> r->Ok_0->Some_0@.len() == 0)
+            && (blk_off(index + 1) > blk_off(index as int) ==> final(self).storage.reads@.len() > 0
+                    && final(self).storage.reads@.last() == (Store::Data, blk_off(index as int))),
         // C10
         final(self).storage.failed@ ==> r is Err
     @*/
